@@ -23,16 +23,38 @@ var CollateFuncs = map[string]func(string, string) int{
 		)
 	},
 	"nocase": func(a, b string) int {
-		lc := func(r rune) rune {
-			if r >= 'A' && r <= 'Z' {
-				return rune(strings.ToLower(string(r))[0])
+		// Same as SQLite's nocaseCollatingFunc(): bytewise, folding ASCII
+		// letters only, and the scan stops at the first NUL byte.
+		lc := func(c byte) byte {
+			if c >= 'A' && c <= 'Z' {
+				return c + ('a' - 'A')
 			}
-			return r
+			return c
 		}
-		return strings.Compare(
-			strings.Map(lc, a),
-			strings.Map(lc, b),
-		)
+		n := len(a)
+		if len(b) < n {
+			n = len(b)
+		}
+		for i := 0; i < n; i++ {
+			ca, cb := lc(a[i]), lc(b[i])
+			if ca != cb {
+				if ca < cb {
+					return -1
+				}
+				return 1
+			}
+			if ca == 0 {
+				break
+			}
+		}
+		switch {
+		case len(a) < len(b):
+			return -1
+		case len(a) > len(b):
+			return 1
+		default:
+			return 0
+		}
 	},
 }
 
